@@ -678,7 +678,7 @@ SIM_CFGS = {
     "J2lin-3D-HEXA8": dict(cfg=("VonMises", "Linear", "none", "none", "none", "3D"), mesh=("3d", "HEXA8")),
 }
 # prescribed displacement of the face x = 1 (unit cube/square clamped at x = 0); '0' is the initial load
-LOADS = {"0": (0.0, 0.0), "a": (3.0 * EPS_Y, 0.0), "b": (-1.0 * EPS_Y, 2.5 * EPS_Y)}
+LOADS = {"0": (0.0, 0.0), "a": (3.0 * EPS_Y, 0.0), "b": (-1.0 * EPS_Y, 2.5 * EPS_Y), "e": (0.3 * EPS_Y, 0.0)}
 SIM_OPS = ["A", "B", "R", "S", "T0", "T1"]  # Solve(load a), Solve(load b), Solve again, Save_Iter, Set_Iter(0), Set_Iter(1)
 
 
@@ -983,6 +983,10 @@ def cases(tier, seed):
     for c in unit_cfgs:
         if accepted(c):
             out.append({"kind": "units", **c})
+    # the mesh of a simulation holding a committed plastic state is replaced by a virgin part
+    for name in ("J2lin-PE-QUAD4", "J2lin-3D-HEXA8"):
+        for other in ("same_size", "other_size"):
+            out.append({"kind": "remesh", "sim": name, "other": other})
     # the elastic law of a live behaviour changed through its setters: same steps as a behaviour constructed with the new law
     for c in unit_cfgs + [dict(_DEFAULT_MP, **d) for d in ({"yield": "none", "hardening": "none"}, {"branches": "two", "kinematic": "Prager"}, {"dim": "PlaneStress", "rate": "Norton"})]:
         if accepted(c):
@@ -1228,7 +1232,54 @@ def run_relaw(case):
     return {"violations": _dedupe(v), "fingerprint": fp("relaw", cfg, solver, *obs), "nontrivial": flowed or not lay.n, "transitions": ntr, "outcome": "ok" if not v else "violation"}
 
 
+def run_remesh(case):
+    """a plastic step is solved and committed, then `simu.mesh = a virgin part` (same number of elements, or another one): the next step equals
+    the step of a freshly built simulation on that part (no internal variable of the previous elements survives)"""
+    from EasyFEA import Simulations
+    from zoo import meshes as Z
+
+    simname, other = case["sim"], case["other"]
+    simu, beh, mesh, cfg = build_sim(simname)
+    sc = SIM_CFGS[simname]
+    kind, et = sc["mesh"]
+    key = dict(kind="remesh", sim=simname, other=other)
+    v = []
+
+    def new_mesh():
+        k = 2 if other == "same_size" else 3
+        return (Z.template_2d(et, k, distort=True) if kind == "2d" else Z.template_3d(et, 1 if other == "same_size" else [2, 1, 1], distort=(other == "same_size"))).build()
+
+    try:
+        with _quiet():
+            apply_load(simu, mesh, "a")
+            simu.Solve()
+            simu.Save_Iter()
+            pmax = float(np.max(np.asarray(simu.Result("p", nodeValues=False)))) if "p" in simu.Results_Available() else 0.0
+            m2 = new_mesh()
+            simu.mesh = m2
+            apply_load(simu, m2, "e")
+            u = np.array(simu.Solve(), dtype=float)
+            fresh = Simulations.InElastic(new_mesh(), build_behavior(cfg))
+            fresh.dt = time_step(cfg)
+            apply_load(fresh, fresh.mesh, "e")
+            uref = np.array(fresh.Solve(), dtype=float)
+    except Exception as err:
+        return {"violations": [viol("remesh_raises", f"{simname}: solving after the mesh was replaced ({other}) raised {type(err).__name__}: {str(err)[:160]}", **key)],
+                "fingerprint": fp("remesh", simname, other), "nontrivial": True, "transitions": 4, "outcome": "violation"}
+    e = np.abs(u - uref).max() / max(np.abs(uref).max(), 1e-300)
+    if e > 1e-8:
+        v.append(viol("remesh_state", f"{simname}: after a committed plastic step (max p = {pmax:.3e}) and `simu.mesh = virgin part` ({other}), the next step differs from the one of a "
+                                      f"fresh simulation on that part by {e:.3e}", **key))
+    return {"violations": v, "fingerprint": fp("remesh", simname, other, uref), "nontrivial": pmax > 0, "transitions": 5, "outcome": "ok" if not v else "violation"}
+
+
 def run_case(case):
+    if case["kind"] == "remesh":
+        import warnings
+
+        with warnings.catch_warnings(), np.errstate(all="ignore"):
+            warnings.simplefilter("ignore", RuntimeWarning)
+            return run_remesh(case)
     if case["kind"] == "relaw":
         import warnings
 
